@@ -102,3 +102,87 @@ def rawify(case):
     spec = dict(case.spec)
     spec['raw_identifiers'] = True
     return Case(case.key + '|raw', body, spec, case.expect, case.run, case.depth + 1, case.tags)
+
+
+US = {'f0': 'x', 'f1': '_x', 'f2': '__x', 'f3': '_s_x', 'f4': '_o_x'}
+
+
+def underscorify(case):
+    """the same case with its named fields called x, _x, __x, _s_x, _o_x: names that differ by the prefixes templates use for their bindings"""
+    import re
+    from ..core import Case
+    if not re.search(r'\bf[0-4]\b', case.body):
+        return None
+    body = re.sub(r'(?<![A-Za-z0-9_#.])f([0-4])\b(?!\()', lambda m: US['f' + m.group(1)], case.body)
+    spec = dict(case.spec)
+    spec['underscore_field_names'] = True
+    return Case(case.key + '|us', body, spec, case.expect, case.run, case.depth + 1, case.tags)
+
+
+# ---- field types of different syntactic kinds under the plain derive, against the standard derive on a twin
+ZOO = [
+    ('fnptr', 'fn(u8) -> u8', ['zoo_inc as fn(u8) -> u8', 'zoo_dec as fn(u8) -> u8']),
+    ('fnptr-hr', "for<'x> fn(&'x u8) -> &'x u8", ["zoo_id as for<'x> fn(&'x u8) -> &'x u8", "zoo_id2 as for<'x> fn(&'x u8) -> &'x u8"]),
+    ('ref', "&'static u8", ['&S1', '&S200']),
+    ('refref', "&'static &'static u8", ['&&1u8', '&&200u8']),
+    ('tuple', '(u8, bool)', ['(0, true)', '(1, false)', '(0, false)']),
+    ('tuple1', '(u8,)', ['(0,)', '(1,)']),
+    ('array', '[u8; 2]', ['[0, 1]', '[1, 0]', '[0, 0]']),
+    ('array0', '[u8; 0]', ['[]']),
+    ('option', 'Option<u8>', ['None', 'Some(0)', 'Some(1)']),
+    ('box', 'Box<u8>', ['Box::new(0)', 'Box::new(1)']),
+    ('paren', '(u8)', ['0', '1']),
+    ('refparen', "&'static (u8)", ['&S1', '&S200']),
+    ('ptr', '*const u8', ['&S1 as *const u8', '&S200 as *const u8']),
+    ('phantom', '::core::marker::PhantomData<Vec<u8>>', ['::core::marker::PhantomData']),
+    ('vec', 'Vec<u8>', ['vec![]', 'vec![0]', 'vec![0, 1]']),
+    ('str', "&'static str", ['""', '"a"', '"b"']),
+    ('slice', "&'static [u8]", ['&[]', '&[0]', '&[1]']),
+    ('unit', '()', ['()']),
+    ('u128', 'u128', ['0', '1', 'u128::MAX']),
+    ('i128', 'i128', ['i128::MIN', '-1', '0']),
+    ('char', 'char', ["'a'", "'\\u{10FFFF}'"]),
+    ('bool', 'bool', ['false', 'true']),
+    ('result', 'Result<u8, bool>', ['Ok(0)', 'Err(false)', 'Err(true)']),
+    ('reverse', 'std::cmp::Reverse<u8>', ['std::cmp::Reverse(0)', 'std::cmp::Reverse(1)']),
+    ('macro', 'zoo_ty!()', ['0', '1']),
+    ('qpath', '<u8 as ZooTr>::Out', ['0u16', '300u16']),
+    ('generic-path', '::std::option::Option<::std::vec::Vec<(u8, u8)>>', ['None', 'Some(vec![])', 'Some(vec![(0, 1)])']),
+    ('nested-ref', "Option<&'static (u8, &'static str)>", ['None', 'Some(&(0, "a"))', 'Some(&(0, "b"))']),
+]
+ZOO_PRE = ("macro_rules! zoo_ty { () => { u8 }; }\npub trait ZooTr { type Out; }\nimpl ZooTr for u8 { type Out = u16; }\n"
+           "fn zoo_inc(x: u8) -> u8 { x.wrapping_add(1) }\nfn zoo_dec(x: u8) -> u8 { x.wrapping_sub(1) }\nfn zoo_id(x: &u8) -> &u8 { x }\nfn zoo_id2(x: &u8) -> &u8 { let _ = 2; x }\n")
+
+
+def zoo_cases(prop, educed, std_for_educe_type, twin_derives, body_check):
+    """One case per (type form, shape).  `educed`: educe trait list text; `std_for_educe_type`: std derives on the educe type; `twin_derives`: std derives on the twin;
+    body_check: Rust statements using `vs: Vec<(Ty, tw::Ty)>` and `r`."""
+    from ..core import Case
+    out = []
+    for zid, zty, zvals in ZOO:
+        for kind in ('sn', 'st', 'en'):
+            if kind == 'sn':
+                decl = 'pub struct Ty { pub a: u8, pub z: %s, pub b: u8 }' % zty
+                mk = lambda a, z, b, p='': '%sTy { a: %s, z: %s, b: %s }' % (p, a, z, b)
+                vals = [(a, z, b) for a in ('0', '1') for z in zvals for b in ('0', '1')]
+                ctor = [lambda p, t=t: '%sTy { a: %s, z: %s, b: %s }' % (p, t[0], t[1], t[2]) for t in vals]
+            elif kind == 'st':
+                decl = 'pub struct Ty(pub u8, pub %s, pub u8);' % zty
+                vals = [(a, z, b) for a in ('0', '1') for z in zvals for b in ('0', '1')]
+                ctor = [lambda p, t=t: '%sTy(%s, %s, %s)' % (p, t[0], t[1], t[2]) for t in vals]
+            else:
+                decl = 'pub enum Ty { A(u8, %s), B { z: %s, b: u8 }, C }' % (zty, zty)
+                ctor = []
+                for z in zvals:
+                    for a in ('0', '1'):
+                        ctor.append(lambda p, a=a, z=z: '%sTy::A(%s, %s)' % (p, a, z))
+                        ctor.append(lambda p, a=a, z=z: '%sTy::B { z: %s, b: %s }' % (p, z, a))
+                ctor.append(lambda p: '%sTy::C' % p)
+            src = ZOO_PRE
+            src += '#[derive(Educe%s)]\n#[educe(%s)]\n%s\n' % (', ' + std_for_educe_type if std_for_educe_type else '', educed, decl)
+            src += 'mod tw {\n    use super::*;\n    #[derive(%s)]\n    %s\n}\n' % (twin_derives, decl)
+            src += 'pub fn check(r: &mut Rep) {\n    let vs: Vec<(Ty, tw::Ty)> = vec![\n%s    ];\n%s}\n' % (
+                ''.join('        (%s, %s),\n' % (c(''), c('tw::')) for c in ctor), body_check)
+            out.append(Case('%s|zoo|%s|%s' % (prop, zid, kind), src, {'field_type': zty, 'shape': kind, 'oracle': '#[derive(%s)] on a twin' % twin_derives},
+                            expect='accept', run=True, depth=1))
+    return out
